@@ -389,6 +389,11 @@ impl E {
     }
 }
 
+/// direct sub-expressions of a node (pre-order walking helper for callers)
+pub fn children_of(e: &E) -> Vec<&E> {
+    e.children()
+}
+
 // ---------------------------------------------------------------- printer
 
 const KEYWORDS: &[&str] = &[
@@ -2782,10 +2787,10 @@ pub fn deep_program(u: &mut Src) -> Prog {
         ("", ".", "[0]", 2000),
         ("", ".", ".a", 2000),
         ("", ".", "[]?", 2000),
-        ("", ".", "|.", 800),
+        ("", ".", "|.", 500),
         ("", "1", "+1", 5000),
         ("", "1", ",1", 5000),
-        ("", ".", " as $x|$x", 250),
+        ("", ".", " as $x|$x", 120),
         ("if . then ", ".", " else . end", 5000),
         ("if ", ".", " then . else . end", 5000),
         ("\"\\(", "1", ")\"", 5000),
@@ -2802,8 +2807,8 @@ pub fn deep_program(u: &mut Src) -> Prog {
         ("recurse(", ".[]?", ")", 5000),
         ("", ".", "//.", 800),
         ("", ".", " and .", 800),
-        ("", ".a", "=1|.a", 400),
-        ("", ".", "|=.", 400),
+        ("", ".a", "=1|.a", 200),
+        ("", ".", "|=.", 200),
         (". as [", "$x", "]|$x", 5000),
         (". as {a:", "$x", "}|$x", 5000),
         ("", ".", " ?// $x", 800),
@@ -2814,8 +2819,8 @@ pub fn deep_program(u: &mut Src) -> Prog {
         ("@base64 \"\\(", ".", ")\"", 5000),
         ("not|", "not", "", 800),
         ("tostring|", "tostring", "", 800),
-        ("[.]|", ".", "", 600),
-        ("", ".", "|[.]", 600),
+        ("[.]|", ".", "", 300),
+        ("", ".", "|[.]", 300),
         ("[", "", "]", 5000),
         ("((", "", "))", 5000),
         ("{", "", "}", 5000),
